@@ -155,8 +155,21 @@ func main() {
 			}
 			// stop early once there is something to report: confirming and
 			// shrinking is worth more than more of the same
-			if len(agg.found) > 0 && time.Since(start) > 60*time.Second {
-				break
+			if time.Since(start) > 60*time.Second {
+				news := false
+				agg.mu.Lock()
+				for sig := range agg.found {
+					if k := known.match(prop, sig); k == nil || k.Status != "known" {
+						news = true
+					}
+				}
+				if len(agg.batchRaces) > 0 {
+					news = true
+				}
+				agg.mu.Unlock()
+				if news {
+					break
+				}
 			}
 		}
 	}
